@@ -1,4 +1,4 @@
-; known finding parallel-output-lost: lint_files(max_workers=2) in a stand-alone process leaves an empty violations file
+; former finding parallel-output-lost (fixed by f81ec3c): lint_files(max_workers=2) in a stand-alone process left an empty violations file
 (lint (files (f 0 ok (1)) (f 3 ok (0 1))) (nh 3) (w 2) (orders (0 3) (0 3) (0 3)) (delays 0 0))
 ; unparsable file in the middle, reverse-staggered delays
 (lint (files (f 1 ok (0 1)) (f 4 bad ()) (f 5 ok (1 1 0))) (nh 3) (w 3) (orders (4 5 1) (4 5 1) (4 5 1)) (delays 24 16 8))
